@@ -38,6 +38,18 @@ def _member_name(parent: Mapping[str, object], key: Union[int, str]) -> Union[in
     return key
 
 
+def _array_index(key: Union[int, str]) -> int:
+    """Return the array index addressed by pointer part _key_.
+
+    A part that resolved against an array without being an index, like the
+    non-standard `#0`, names something other than a location in the array.
+    """
+    try:
+        return int(key)
+    except ValueError:
+        raise JSONPatchError(f"{key!r} is not an array index") from None
+
+
 class Op(ABC):
     """One of the JSON Patch operations."""
 
@@ -87,7 +99,7 @@ class OpAdd(Op):
                 else:
                     raise JSONPatchError("index out of range")
             else:
-                parent.insert(int(target), value)
+                parent.insert(_array_index(target), value)
         elif isinstance(parent, MutableMapping):
             parent[_member_name(parent, target)] = value
         else:
@@ -135,7 +147,7 @@ class OpAddNe(OpAdd):
                 else:
                     raise JSONPatchError("index out of range")
             else:
-                parent.insert(int(target), value)
+                parent.insert(_array_index(target), value)
         elif isinstance(parent, MutableMapping):
             key = _member_name(parent, target)
             if key not in parent:
@@ -173,7 +185,7 @@ class OpAddAp(OpAdd):
             if obj is UNDEFINED:
                 parent.append(value)
             else:
-                parent.insert(int(target), value)
+                parent.insert(_array_index(target), value)
         elif isinstance(parent, MutableMapping):
             parent[_member_name(parent, target)] = value
         else:
@@ -204,7 +216,7 @@ class OpRemove(Op):
         if isinstance(parent, MutableSequence):
             if obj is UNDEFINED:
                 raise JSONPatchError("can't remove nonexistent item")
-            del parent[int(self.path.parts[-1])]
+            del parent[_array_index(self.path.parts[-1])]
         elif isinstance(parent, MutableMapping):
             if obj is UNDEFINED:
                 raise JSONPatchError("can't remove nonexistent property")
@@ -248,7 +260,7 @@ class OpReplace(Op):
         if isinstance(parent, MutableSequence):
             if obj is UNDEFINED:
                 raise JSONPatchError("can't replace nonexistent item")
-            parent[int(self.path.parts[-1])] = value
+            parent[_array_index(self.path.parts[-1])] = value
         elif isinstance(parent, MutableMapping):
             if obj is UNDEFINED:
                 raise JSONPatchError("can't replace nonexistent property")
@@ -288,7 +300,7 @@ class OpMove(Op):
             raise JSONPatchError("source object does not exist")
 
         if isinstance(source_parent, MutableSequence):
-            del source_parent[int(self.source.parts[-1])]
+            del source_parent[_array_index(self.source.parts[-1])]
         if isinstance(source_parent, MutableMapping):
             try:
                 del source_parent[
